@@ -39,10 +39,15 @@ type stepper interface {
 
 // sameRun drives the flushed instance and the fresh instance with the same input sequence and compares every output.
 func sameRun(flushed, fresh stepper, rounds, nIn int, what string) {
+	// "any subsequent sequence of sensor loads and activations": the sequence may also START with an activation
+	skipFirstLoad := vChoice("sequence starts with an activation", 2) == 1
 	for r := 0; r < rounds; r++ {
-		y := symInputs(nIn)
-		e1, e2 := flushed.LoadSensors(y), fresh.LoadSensors(y)
-		vAssert((e1 == nil) == (e2 == nil), what+": LoadSensors behaves as on a fresh instance")
+		if !(skipFirstLoad && r == 0) {
+			y := symInputs(nIn)
+			e1, e2 := flushed.LoadSensors(y), fresh.LoadSensors(y)
+			vAssert((e1 == nil) == (e2 == nil), what+": LoadSensors behaves as on a fresh instance")
+		}
+		var e1, e2 error
 		steps := 1 + vChoice("steps", 2)
 		_, e1 = flushed.ForwardSteps(steps)
 		_, e2 = fresh.ForwardSteps(steps)
@@ -111,11 +116,14 @@ func vc13(c tNetCfg, hist, seq int) {
 }
 
 func VC13_Flush_Quick() {
-	vc13(tNetCfg{nIn: 1, nBias: 1, nHid: 1, nOut: 1, recurrent: true, atype: neatmath.LinearActivation}, 1, 2)
+	vc13(tNetCfg{nIn: 1, nBias: 1, nHid: 1, nOut: 1, recurrent: true, atype: neatmath.LinearActivation, concreteW: true}, 1, 2)
+}
+func VC13_Flush_SymbolicWeights() {
+	vc13(tNetCfg{nIn: 1, nBias: 0, nHid: 1, nOut: 1, recurrent: true, atype: neatmath.LinearActivation}, 1, 1)
 }
 func VC13_Flush_Sigmoid() {
 	vc13(tNetCfg{nIn: 1, nBias: 0, nHid: 1, nOut: 1, recurrent: true, atype: neatmath.SigmoidSteepenedActivation}, 2, 1)
 }
 func VC13_Flush_Thorough() {
-	vc13(tNetCfg{nIn: 1, nBias: 1, nHid: 2, nOut: 1, recurrent: true, atype: neatmath.LinearActivation}, 2, 2)
+	vc13(tNetCfg{nIn: 1, nBias: 1, nHid: 2, nOut: 1, recurrent: true, atype: neatmath.LinearActivation, concreteW: true}, 2, 2)
 }
